@@ -52,6 +52,28 @@ def execute(scenario: dict, env) -> dict:
     return sm.execute(scenario, env, prop="C09")
 
 
+
+
+def worker_setup(env, replay_meta=None) -> None:
+    """Start the cross-process helper: a template interpreter under ANOTHER hash seed (forks per request)."""
+    from sim import core
+    from sim.driver import VERIF
+    from sim.oracle import OracleClient
+
+    if replay_meta and replay_meta.get("xproc_hashseed"):
+        h2 = str(replay_meta["xproc_hashseed"])
+    else:
+        h2 = str(core.h64("xproc-hashseed", env.chunk_seed) % 4294967295)
+        if h2 == env.hashseed:
+            h2 = str((int(h2) + 1) % 4294967295)
+    env.resources["xproc"] = OracleClient("checks.specmachine", h2, str(VERIF))
+    env.xproc_hashseed = h2
+
+
+def replay_meta(env) -> dict:
+    return {"xproc_hashseed": env.xproc_hashseed}
+
+
 reduce = sm.reduce
 simplify = sm.simplify
 features = sm.features
